@@ -965,7 +965,9 @@ theorem hashProtLoop_step (l v : GoVal) (r : GoMap) (found : Bool)
     · rename_i hc
       refine ⟨⟨?_, ?_, ?_⟩, found, h, Or.inl rfl⟩
       · intro k'; simp only [hn]; intro hc; cases hc
-      · intro k' _; simpa using hc
+      · intro k' _
+        have hc' : canUint v = true ∨ canText v = true := by simpa using hc
+        simpa using hc'.imp id canText_canTstr
       · intro k'; simp only [hn]; intro hc; cases hc
     · cases h
   · rename_i k hn
@@ -974,7 +976,7 @@ theorem hashProtLoop_step (l v : GoVal) (r : GoMap) (found : Bool)
       refine ⟨⟨?_, ?_, ?_⟩, found, h, Or.inl rfl⟩
       · intro k'; simp only [hn]; intro hc; cases hc
       · intro k'; simp only [hn]; intro hc; cases hc
-      · intro k' _; exact hc
+      · intro k' _; exact canText_canTstr hc
     · cases h
   · rename_i nl h3 h258 h259 h260 hn
     refine ⟨⟨?_, ?_, ?_⟩, found, h, Or.inl rfl⟩
